@@ -90,3 +90,13 @@ Qed.
 (* files.Contents.Less as translated is the planning model's order on entries *)
 Lemma src_content_less_is_model a b : src_content_less a b = content_ltb a b.
 Proof. reflexivity. Qed.
+
+(* archlinux: the pkgver computed inside createPkginfo *)
+From Coq Require Import ZArith.
+From NfpmV Require Import Gen.ArchPkgver.
+Lemma src_arch_pkgver_is_model i arch : src_arch_pkgver i arch = arch_version i.
+Proof.
+  unfold src_arch_pkgver, arch_version, arch_pkgrel. cbv zeta.
+  destruct (nonempty (gs i "epoch")); [|norm; reflexivity].
+  destruct (parse_uint 18446744073709551616%Z (gs i "epoch")); norm; reflexivity.
+Qed.
